@@ -573,6 +573,50 @@ static void c19_value(Case& cs) {
   if (readd_existing) cs.st.cls("readd_existing_value_on_copy");
 }
 
+// ---- C11 on a block whose tables were filled by the decoder ------------------------------------------------
+// A block read from a file is a block like any other: adding a value it already holds returns the index of the existing entry and
+// does not grow the table.  The block object is filled by CdnsBlockRead(dec, params) itself (no copy in between).
+static void c11_readblock(Case& cs) {
+  Chooser& c = cs.c;
+  gen::Pools pools = gen::make_pools(c);
+  gen::TimeCtx tc = gen::gen_timectx(c);
+  BlockParameters bp;
+  g_observe_tps = 1000000;
+  std::vector<ContentOp> content;
+  unsigned n = (unsigned)c.range(1, 4 + cs.size / 2);
+  for (unsigned i = 0; i < n; i++) { ContentOp o = gen_op(c, pools, tc, i); if (o.kind == 0) o.kind = 1, o.f = gen::gen_qr(c, pools, tc, g_observe_tps, gen::RecOpts()); content.push_back(o); }
+  FilePreamble fp;
+  std::string fn = cs.scratch + "/c11file";
+  {
+    CdnsExporter ex(fp, fn, CborOutputCompression::NO_COMPRESSION);
+    CdnsBlock tmp(bp, 0);
+    for (auto& o : content) apply_op(tmp, o, nullptr);
+    ex.write_block(tmp);
+  }
+  std::string bytes; read_file(fn, bytes);
+  if (bytes.empty()) { cs.st.cnt("blocked:no_block_written"); return; }
+  std::istringstream is(bytes);
+  CdnsDecoder dec(is);
+  bool indef = false, bi = false;
+  dec.read_array_start(indef); dec.read_textstring();
+  FilePreamble rfp; rfp.read(dec);
+  dec.read_array_start(bi);
+  CdnsBlockRead blk(dec, rfp.m_block_parameters);
+  size_t before[T_N]; size_t total = 0;
+  for (int t = 0; t < T_N; t++) { before[t] = blk_size(blk, t); total += before[t]; }
+  std::string desc = std::to_string(n) + " records written, read back into one block object (" + std::to_string(total) + " table entries)";
+  cs.sample = desc;
+  // every string-valued entry added again: same index, no growth
+  for (size_t i = 0; i < before[T_IP]; i++) { std::string v = blk.get_ip_address((index_t)i); index_t r = blk.add_ip_address(v); VF_CHECK(r < before[T_IP] && blk.get_ip_address(r) == v && blk_size(blk, T_IP) == before[T_IP], "sig=c11.read_block_dedup adding IP address entry " << i << " of a block read from a file again returned index " << r << ", table size " << before[T_IP] << " -> " << blk_size(blk, T_IP) << " : " << desc); }
+  for (size_t i = 0; i < before[T_NRD]; i++) { std::string v = blk.get_name_rdata((index_t)i); index_t r = blk.add_name_rdata(v); VF_CHECK(r < before[T_NRD] && blk.get_name_rdata(r) == v && blk_size(blk, T_NRD) == before[T_NRD], "sig=c11.read_block_dedup adding name/rdata entry " << i << " of a block read from a file again returned index " << r << ", table size " << before[T_NRD] << " -> " << blk_size(blk, T_NRD) << " : " << desc); }
+  for (size_t i = 0; i < before[T_CT]; i++) { ClassType v = blk.get_classtype((index_t)i); index_t r = blk.add_classtype(v); VF_CHECK(r < before[T_CT] && blk_size(blk, T_CT) == before[T_CT], "sig=c11.read_block_dedup adding class/type entry " << i << " of a block read from a file again returned index " << r << ", table size " << before[T_CT] << " -> " << blk_size(blk, T_CT) << " : " << desc); }
+  // the same records buffered again: every value they need is in the tables already
+  for (auto& o : content) apply_op(blk, o, nullptr);
+  for (int t = 0; t < T_N; t++) VF_CHECK(blk_size(blk, t) == before[t], "sig=c11.read_block_dedup table " << TN[t] << " of a block read from a file grew from " << before[t] << " to " << blk_size(blk, t) << " when the records it was written from were added again : " << desc);
+  cs.nontrivial = total >= 4;
+  if (total >= 32) cs.st.cls("read_block_with>=32_table_entries");
+}
+
 // ---- C10 (structure level): every serialisable structure returns the number of bytes it appended --------
 template <class F> static void write_and_check(Case& cs, const char* what, const std::string& desc, F writer) {
   std::string fn = cs.scratch + "/c10struct";
@@ -659,6 +703,7 @@ int main(int argc, char** argv) {
   Registry r;
   r.add("c10_struct", c10_struct);
   r.add("c11_tables", c11_tables);
+  r.add("c11_readblock", c11_readblock);
   r.add("c19_value", c19_value);
   return harness_main(argc, argv, r);
 }
